@@ -626,6 +626,60 @@ def allowed_strings_for(P, F, subj):
 
 
 # ------------------------------------------------------------------------------------------------
+def literal_value_set(P, F, key):
+    """the values a local integer can hold if it is only ever given integer literals (declaration and plain assignments); else None"""
+    vals = set()
+    d = P.d(key)
+    if d.get("storage") != "local" or key in F.params:
+        return None
+    for y in F.walk():
+        if y.get("k") == "VarDecl" and y.get("r") == key:
+            i0 = norm.strip_casts(y["c"][0]) if y.get("c") else None
+            if i0 is None or i0.get("k") != "IntegerLiteral":
+                return None
+            vals.add(int(i0["v"]))
+        elif y.get("k") in ("BinaryOperator", "CompoundAssignOperator") and y.get("op") in norm.ASSIGN_OPS and astq.is_ref_to(y["c"][0], key):
+            r0 = norm.strip_casts(y["c"][1])
+            if y.get("op") != "=" or r0 is None or r0.get("k") != "IntegerLiteral":
+                return None
+            vals.add(int(r0["v"]))
+        elif y.get("k") == "UnaryOperator" and y.get("op") in ("++", "--", "&") and astq.is_ref_to(y["c"][0], key):
+            return None
+    return vals or None
+
+
+def dead_by_excluded_values(P, F, x):
+    """the statement is control dependent on tests `v == k` having failed for every value k the local v can hold
+    (an if / else-if chain that returns for each possible value, followed by the statement)"""
+    from . import guard
+    b = F.block_of(x)
+    if b is None:
+        return False
+    ctrl = guard.controlling(F).get(b, ())
+    binfo = guard.branch_info(P, F)
+    excluded = {}
+    for (bb, idx) in ctrl:
+        kind, c = binfo.get(bb, ("other", None))
+        if kind != "cond" or c is None:
+            continue
+        c = sc(c)
+        if c.get("k") != "BinaryOperator" or c.get("op") not in ("==", "!="):
+            continue
+        a, b_ = norm.strip_casts(c["c"][0]), norm.strip_casts(c["c"][1])
+        if a is not None and b_ is not None and a.get("k") == "IntegerLiteral" and b_.get("k") == "DeclRefExpr":
+            a, b_ = b_, a
+        if a is None or b_ is None or a.get("k") != "DeclRefExpr" or b_.get("k") != "IntegerLiteral":
+            continue
+        holds = (idx == 0)                      # the branch taken when the test is true
+        if (c["op"] == "==" and not holds) or (c["op"] == "!=" and holds):
+            excluded.setdefault(a["r"], set()).add(int(b_["v"]))
+    for key, ex in excluded.items():
+        vals = literal_value_set(P, F, key)
+        if vals is not None and vals <= ex:
+            return True
+    return False
+
+
 def dead_default(P, F, x):
     """the throw sits under the `default:` of a switch over a local integer that is only ever given literal values, all of
     which have their own case label: no execution reaches it"""
@@ -687,7 +741,7 @@ def throw_types(P, rep, R, rule="A5", floor=30):
                     continue   # rethrow
                 if re.search(r"std::(runtime_error|logic_error|invalid_argument|out_of_range|exception|domain_error|length_error|range_error|overflow_error|bad_alloc)", t):
                     continue
-                if dead_default(P, F, x):
+                if dead_default(P, F, x) or dead_by_excluded_values(P, F, x):
                     dead += 1
                     continue
                 rep.violation(rule, "%s throws %s" % (F.qn, t or "?"), F.nloc(x), F.qn, norm.render(P, x), "not a standard exception",
